@@ -136,6 +136,27 @@ static void Tuple_Assign(var self, var obj) {
   
   } else {
     
+    /* a source that cannot be iterated either is refused before anything changes */
+    method_at_offset(obj, Iter, offsetof(struct Iter, iter_init), "iter_init");
+    
+#if CELLO_ALLOC_CHECK == 1
+    if (header(self)->alloc is (var)AllocStack
+    or  header(self)->alloc is (var)AllocStatic) {
+      throw(ValueError, "Cannot reallocate Tuple, not on heap!");
+    }
+#endif
+    
+    /* start from an empty Tuple: assign replaces the items */
+    t->items = realloc(t->items, sizeof(var));
+    
+#if CELLO_MEMORY_CHECK == 1
+    if (t->items is NULL) {
+      throw(OutOfMemoryError, "Cannot allocate Tuple, out of memory!");
+    }
+#endif
+    
+    t->items[0] = Terminal;
+    
     foreach (item in obj) {
       Tuple_Push(self, item);
     }
